@@ -2,6 +2,7 @@ import Sudachi.Model.Wire
 import Sudachi.Model.CharCat
 import Sudachi.Model.Edit
 import Sudachi.Model.Lattice
+import Sudachi.Model.LatticeRec
 import Sudachi.Model.Sentence
 import Sudachi.Model.OovIO
 import Sudachi.Model.Normalize
@@ -30,13 +31,13 @@ def answer (line : String) : String :=
     | "C01" => if String.ofList op == "morph" then EditM.handleMorph rest else EditM.handle rest
     | "C17" => CharCat.handle rest
     | "C08" => EditM.handle rest
-    | "C02" => Vit.handle rest
+    | "C02" => Vit.handleRec rest
     | "C16" => Sentence.handle rest
     | "C13" => Oov.handle op rest
     | "C07" => Normalize.handle op rest
     | "C15" => Numeric.handle op rest
     | "C19" => Cli.handle op rest
-    | "C18" => Sched.handle rest
+    | "C18" => Sched.handleOp op rest
     | "C14" => Rewrite.handle rest
     | "C11" => Subset.handle op rest
     | "C09" => Split.handle op rest
